@@ -285,7 +285,7 @@ func init() {
 				}
 				return []float64{p, n}
 			},
-			directed: [][]float64{{0.5, 10}, {0.25, 1}, {0.125, 0}, {0, 5}, {1, 5}, {0.875, 100}},
+			directed: [][]float64{{0.5, 10}, {0.25, 1}, {0.125, 0}, {0, 5}, {1, 5}, {0.875, 100}, {0.12010524195153012, 2}},
 			pclass:  func(p []float64) string { return probClass(p[0]) },
 			support: func(p []float64) (float64, float64, bool) { return 0, p[1], true },
 			center: func(p []float64) (float64, float64) {
